@@ -320,6 +320,45 @@ Theorem cancellation_reported : forall F stream d g items,
   run_graph F stream (S d) g items true = GFail [new_graph_run_error (Wrapf (Leaf id_canceled))].
 Proof. exact cancelled_run. Qed.
 
+(* End to end for the step limit of a NESTED graph: [fails_at] has the case ([fa_limit]: the
+   graph's own loop runs into its limit — by [step_limit_reported] every cyclic graph of succeeding
+   nodes does), so by [failing_node_reported] the public call, in every paradigm and at every
+   nesting depth, has the answer that names exactly the path of sub-graph nodes down to the graph
+   whose limit was exceeded, and the sentinel is matchable on it. *)
+Theorem nested_step_limit_reported : forall g F' par p,
+  forward (g :: F') -> post_ok (g :: F') ->
+  fails_at (g :: F') (stream_of par) (S (List.length (g :: F'))) g p (new_graph_run_error (Leaf id_exceed)) ->
+  let e := top_error par (wrap_path p (new_graph_run_error (Leaf id_exceed))) in
+  In (AErr e) (answers (g :: F') par false None) /\
+  is_ (Leaf id_exceed) e = true /\ np_of e = p /\ msg_path e = p.
+Proof.
+  intros g F' par p HF HP Hfa e.
+  destruct (failing_node_reported g F' par p _ HF HP Hfa) as [Hin Hpaths].
+  destruct (Hpaths eq_refl) as [Hm Hn]. rewrite app_nil_r in Hm, Hn.
+  split; [exact Hin|]. split; [|split; assumption].
+  unfold e. destruct (top_error_is_wrapper par (wrap_path p (new_graph_run_error (Leaf id_exceed)))) as [wt [-> _]].
+  rewrite wrap_path_is_apply_ws, <- apply_ws_app. apply sentinels_matchable.
+Qed.
+Print Assumptions nested_step_limit_reported.
+
+Example nested_step_limit_nonvacuous :
+  (* two levels down a cyclic graph of two succeeding nodes with limit 5; reached through a quiet stage *)
+  let top := mkGraph false [[NLam "first" FS BOk]; [NSub "a" 1; NLam "side" FI BOk]] false 0 BrNone in
+  let F := [ top; mkGraph true [[NSub "b" 2]] false 0 BrNone;
+             mkGraph false [[NLam "x" FI BOk]; [NLam "y" FT BOk]] true 5 BrOk ] in
+  forward F /\ post_ok F /\
+  fails_at F true (S (List.length F)) top ["a"; "b"] (new_graph_run_error (Leaf id_exceed)).
+Proof.
+  cbv zeta. split; [apply forwardb_sound; vm_compute; reflexivity|].
+  split; [apply post_okb_sound; vm_compute; reflexivity|].
+  eapply (fa_sub _ _ _ _ [[NLam "first" FS BOk]] [NSub "a" 1%nat; NLam "side" FI BOk] [] "a" 1%nat);
+    [reflexivity| |cbn; lia|reflexivity|left; reflexivity|reflexivity|].
+  { intros st n [<-|[]] [<-|[]]; vm_compute; split; reflexivity. }
+  eapply (fa_sub _ _ _ _ [] [NSub "b" 2%nat] [] "b" 2%nat);
+    [reflexivity|intros st n []|cbn; lia|reflexivity|left; reflexivity|reflexivity|].
+  apply fa_limit. apply step_limit_reported; [reflexivity|reflexivity|discriminate|reflexivity].
+Qed.
+
 (* the other error the loop makes on behalf of user code: the condition of the branch after the
    last stage fails with u (all tasks of the stage having succeeded quietly).  The run fails with
    u under key-free framework wrappers — so u is recoverable by [orig_recoverable] — and names no
@@ -472,6 +511,11 @@ Theorem forwarder_panic_item : forall pre i post, existsb is_boom pre = false ->
   fwd (pre ++ SBoom i :: post) = (fwd pre ++ [RErr (PanicErr i)])%list /\
   direct (pre ++ SBoom i :: post) = DPanic (fwd pre) i.
 Proof. exact fwd_boom_lemma. Qed.
+
+(* the same for one child of a copied source read directly, without any forwarder (F-C13d: the
+   shared element of the copies records the panic) *)
+Theorem copy_child_contains_panic : forall src, child_read src = contained (direct src).
+Proof. exact fwd_is_direct_contained_lemma. Qed.
 
 (* ... and whatever the interleaving the scheduler produces, the merged stream delivers the panic
    of every panicking source as an error item, every item of every member, each member in its
